@@ -208,11 +208,32 @@ def unparse_Name(node: Name) -> unparse_gen_t:
     yield
 
 
-def get_unescaped_str(string: str, qm: str) -> str:
+_quote_marks = ["'", '"', "'''", '"""']
+
+
+def choose_quote_mark(texts: typing.Sequence[str | bytes]) -> tuple[str, bool]:
+    """
+    Choose the quote for a string, which is not included in the string
+    (for an f-string: not included in the exprs of its replacement fields,
+    because an f-string can't contain its own quote before python 3.12).
+    Returns the quote, and whether the quote in the string has to be escaped
+    (True if no quote was found).
+    """
+    for qm in _quote_marks:
+        for text in texts:
+            _qm = qm if isinstance(text, str) else qm.encode()
+            # (a triple quote followed by one more quote is not a triple quote)
+            if _qm in text or (len(_qm) == 3 and text.endswith(_qm[:1])):
+                break
+        else:
+            return qm, False
+    return _quote_marks[0], True
+
+
+def get_unescaped_str(string: str, escaped_quote_marks: str) -> str:
     out = []
     for i in string:
-        if i == qm[0]:
-            # (qm may be a triple quote)
+        if i in escaped_quote_marks:
             out.append(f"\\{i}")
         elif ord(i) > 127 and i.isprintable():
             # (no escape: a backslash is not allowed in an f-string expr before python 3.12)
@@ -226,18 +247,19 @@ def get_unescaped_str(string: str, qm: str) -> str:
 _INF_STR = "1e" + repr(sys.float_info.max_10_exp + 1)
 
 
-def unparse_Constant(node: Constant, qm: typing.Literal["'", '"']) -> unparse_gen_t:
+def unparse_Constant(node: Constant) -> unparse_gen_t:
     if node.value is ...:
         return "..."
     if isinstance(node.value, str):
-        value = get_unescaped_str(node.value, qm)
+        qm, escape = choose_quote_mark([node.value])
+        value = get_unescaped_str(node.value, qm if escape else "")
         return f"{qm}{value}{qm}"
     if isinstance(node.value, bytes):
-        # the repr of bytes chooses the quote by itself, use `qm` instead
-        value = repr(node.value)
-        used_qm, value = value[1], value[2:-1]
-        if used_qm != qm[0]:
-            value = value.replace(qm[0], "\\" + qm[0])
+        qm, escape = choose_quote_mark([node.value])
+        # (the repr of a single byte never escapes a quote)
+        value = "".join(repr(bytes([i]))[2:-1] for i in node.value)
+        if escape:
+            value = value.replace(qm, "\\" + qm)
         return f"b{qm}{value}{qm}"
     if isinstance(node.value, (float, complex)):
         # repr of an infinite value is "inf", which is a name and not a literal
@@ -246,15 +268,41 @@ def unparse_Constant(node: Constant, qm: typing.Literal["'", '"']) -> unparse_ge
     yield
 
 
-def _unparse_JoinedStr(
-    node: JoinedStr, qm: typing.Literal["'", '"'], is_format_spec: bool = False
-) -> unparse_gen_t:
+def unparse_JoinedStr(node: JoinedStr) -> unparse_gen_t:
+    contents: list[str | Constant] = []
+    replacement_fields: list[str] = []
+    for v in node.values:
+        if isinstance(v, Constant):
+            contents.append(v)
+        elif isinstance(v, FormattedValue):
+            replacement_field = yield PREC_FORMAT_EXPR_SLOT, v
+            replacement_fields.append(replacement_field)
+            contents.append(replacement_field)
+
+    if sys.version_info < (3, 12) and any("\\" in i for i in replacement_fields):
+        raise SyntaxError(
+            "Back slash is included in a replacement field of a f-string"
+        )  # pragma: no cover
+
+    qm, _ = choose_quote_mark(replacement_fields)
+    for index, v in enumerate(contents):
+        if isinstance(v, Constant):
+            assert isinstance(v.value, str)
+            # (a backslash is allowed here)
+            v = get_unescaped_str(v.value, qm[0])
+            contents[index] = v.replace("{", "{{").replace("}", "}}")
+    return f"f{qm}{''.join(contents)}{qm}"  # type: ignore
+
+
+def _unparse_format_spec(node: JoinedStr) -> unparse_gen_t:
     contents = []
     for v in node.values:
         if isinstance(v, Constant):
             assert isinstance(v.value, str)
-            s = get_unescaped_str(v.value, qm)
-            if is_format_spec and sys.version_info >= (3, 12):
+            # (the quotes are not escaped,
+            # the quote of the f-string will be chosen according to the replacement fields)
+            s = get_unescaped_str(v.value, "")
+            if sys.version_info >= (3, 12):
                 # `{{` is not an escaped brace in a format spec
                 s = s.replace("{", "\\x7b").replace("}", "\\x7d")
             else:
@@ -265,19 +313,12 @@ def _unparse_JoinedStr(
     return "".join(contents)
 
 
-def unparse_JoinedStr(node: JoinedStr, qm: typing.Literal["'", '"']) -> unparse_gen_t:
-    contents = yield from _unparse_JoinedStr(node, qm)
-    if sys.version_info < (3, 12) and "\\" in contents:  # pragma: no cover
-        raise SyntaxError("Back slash is included in a f-string")
-    return f"f{qm}{contents}{qm}"
-
-
-def unparse_FormattedValue(node: FormattedValue, qm) -> unparse_gen_t:
+def unparse_FormattedValue(node: FormattedValue) -> unparse_gen_t:
     value = yield PREC_FORMAT_EXPR_SLOT, node.value
     format_spec = ""
     if node.format_spec is not None:
         assert isinstance(node.format_spec, JoinedStr)
-        format_spec = yield from _unparse_JoinedStr(node.format_spec, qm, True)
+        format_spec = yield from _unparse_format_spec(node.format_spec)
         format_spec = ":" + format_spec
     if value[0] == "{":
         value = " " + value
@@ -577,54 +618,6 @@ def unparse_Await(node: Await) -> unparse_gen_t:
     return f"await {value}"
 
 
-# The quotes of the strings, by the height of the string.
-# Before python 3.12, a string in an f-string can't contain the quote of the f-string,
-# so the innermost strings use `'`, the f-strings containing them use `"`, and so on.
-# (a triple quote may contain the single one)
-_quote_marks = ["'", '"', "'''", '"""']
-
-
-def _get_string_heights(root: expr) -> dict[int, int]:
-    """
-    Get the heights of the strings (str/bytes constants and f-strings) in an expr.
-    The height of a string is 0 if there is no string in its replacement fields,
-    otherwise it is 1 + the max height of the strings in its replacement fields.
-    Returns a dict: id(node) -> height
-    """
-    heights: dict[int, int] = {}
-    # the max height of the strings in the sub-tree of a node, -1 if there is no string
-    max_heights: dict[int, int] = {}
-    stack: list[tuple[AST, bool]] = [(root, False)]
-    while stack:
-        node, children_done = stack.pop()
-        if isinstance(node, JoinedStr):
-            # the constants in an f-string are not strings by themselves
-            children = [i for i in node.values if isinstance(i, FormattedValue)]
-        elif isinstance(node, FormattedValue):
-            # a format spec is not a string by itself
-            children = [node.value]
-            if node.format_spec is not None:
-                assert isinstance(node.format_spec, JoinedStr)
-                children.extend(
-                    i for i in node.format_spec.values if isinstance(i, FormattedValue)
-                )
-        else:
-            children = list(iter_child_nodes(node))
-        if not children_done:
-            stack.append((node, True))
-            stack.extend((child, False) for child in children)
-            continue
-        max_height = max([max_heights[id(child)] for child in children], default=-1)
-        is_string = isinstance(node, JoinedStr) or (
-            isinstance(node, Constant) and isinstance(node.value, (str, bytes))
-        )
-        if is_string:
-            max_height += 1
-            heights[id(node)] = max_height
-        max_heights[id(node)] = max_height
-    return heights
-
-
 class _Node:
     gen: unparse_gen_t
 
@@ -658,28 +651,11 @@ class _Node:
         Await: unparse_Await,
     }
 
-    def __init__(
-        self,
-        outer_precedence: prec_t,
-        node: expr,
-        outer_str_qm: str,
-        string_heights: dict[int, int],
-    ):
+    def __init__(self, outer_precedence: prec_t, node: expr):
         self.outer_precedence = outer_precedence
         self.node_precedence = get_node_precedence(node)
         gen_func = self.gen_map.get(type(node), unparse_generic)
-
-        if gen_func in [unparse_Constant, unparse_JoinedStr]:
-            height = string_heights.get(id(node), 0)
-            # (no more kinds of quotes for a higher string, which is valid since python 3.12)
-            self.qm = _quote_marks[height % len(_quote_marks)]
-            self.gen = gen_func(node, self.qm)
-        elif gen_func is unparse_FormattedValue:
-            self.qm = outer_str_qm
-            self.gen = gen_func(node, self.qm)
-        else:
-            self.qm = outer_str_qm
-            self.gen = gen_func(node)
+        self.gen = gen_func(node)
 
 
 """
@@ -702,8 +678,7 @@ they may have multiple slots with different slot precedence value.
 
 def expr_unparse(node: expr) -> str:
     stack: list[_Node] = []
-    string_heights = _get_string_heights(node)
-    stack.append(_Node(PREC_EXPR_SLOT, node, "", string_heights))
+    stack.append(_Node(PREC_EXPR_SLOT, node))
     converted: str | None = None
     while stack:
         try:
@@ -715,9 +690,7 @@ def expr_unparse(node: expr) -> str:
             if inner_node.node_precedence > inner_node.outer_precedence:
                 converted = f"({converted})"
         else:
-            stack.append(
-                _Node(slot_prec, unconverted_node, stack[-1].qm, string_heights)
-            )
+            stack.append(_Node(slot_prec, unconverted_node))
             converted = None
 
     assert converted is not None
